@@ -33,6 +33,7 @@ def main(argv=None):
     ap.add_argument('--shards', type=int, default=int(os.environ.get('VERIF_SHARDS', '16')))
     ap.add_argument('--triage', action='store_true', help='development: list every unmatched bucket, exit 0')
     ap.add_argument('--no-evidence', action='store_true')
+    ap.add_argument('--emit-known', help='development: write candidate known-finding entries for unmatched buckets')
     a = ap.parse_args(argv)
     prop = a.prop.upper()
     tier = a.tier if a.tier in ('quick', 'thorough') else 'quick'
@@ -112,6 +113,8 @@ def main(argv=None):
 
     if a.triage:
         print_triage(prop, merged, violations)
+        if a.emit_known:
+            emit_known(prop, violations, a.emit_known)
         return 0
 
     # vacuity guards
@@ -234,6 +237,31 @@ def print_triage(prop, merged, violations):
         print(f'-- [{n}] kind={b[0]} site={b[1]} features={list(b[2])} configs={cfgs[:4]}')
         print('   case:', json.dumps(v['case'], default=repr, ensure_ascii=False)[:700])
         print('   detail:', v['record']['detail'][:500])
+
+
+def emit_known(prop, violations, path):
+    import re
+    bks = collections.defaultdict(list)
+    for v in violations:
+        bks[findings.bucket(v['record'])].append(v)
+    out = []
+    for b, vs in bks.items():
+        v = min(vs, key=lambda v: len(json.dumps(v['case'], default=repr)))
+        cfg = collections.defaultdict(set)
+        for x in vs:
+            for k, val in x['record']['config'].items():
+                cfg[k].add(val)
+        slug = re.sub(r'[^A-Za-z0-9]+', '-', f'{b[0]}-{b[1]}-' + '-'.join(b[2])).strip('-')[:70]
+        m = {'kind': b[0], 'site': '^' + re.escape(b[1]) + '$'}
+        if b[2]:
+            m['features_all'] = list(b[2])
+        if cfg:
+            m['config'] = {k: sorted(vals) for k, vals in cfg.items()}
+        out.append({'id': f'{prop}-{slug}', 'property': prop, 'status': 'open',
+                    'title': v['record']['detail'][:140], 'match': m, 'witness': v['case']})
+    with open(path, 'w') as f:
+        json.dump(out, f, indent=1, default=repr, ensure_ascii=False)
+    print(f'wrote {len(out)} candidate entries to {path}')
 
 
 def write_evidence(mod, prop, tier, seed, merged, entries, wall, nviol, rc):
